@@ -12,12 +12,24 @@ META = {
                    'row, and allocate width*height+1 bytes; R01.6 every literal of the sample grid agrees with SAMPLE_SHIFT (derived consts, '
                    'fixed-point conversion helpers, 1<<SHIFT sample rows per pixel, rounding constant = half a sample on both span ends, '
                    'partial-cell shift, full-cell value, straight-edge slope scale).',
-    'decides': ['R01.1 sorted-at-scan typestate', 'R01.2 winding accounting', 'R01.3 winding-rule table', 'R01.4 subpath closing and curve flags', 'R01.5 raster blitter geometry', 'R01.6 sample-grid constants'],
+    'decides': ['R01.8 insertion-row guards of add_edge', 'R01.1 sorted-at-scan typestate', 'R01.2 winding accounting', 'R01.3 winding-rule table', 'R01.4 subpath closing and curve flags', 'R01.5 raster blitter geometry', 'R01.6 sample-grid constants'],
     'does_not_decide': ['that the numbers are right: slope values and stepping error, rounding beyond the constants, 16k/16k-1 accumulation and saturated_add, exactness at surface borders, edge culling arithmetic, curve set-up (fixed-point scale analysis R01.7 is not built)'],
     'assumptions': ['Rasterizer::reset leaves the active list empty, hence sorted (R10.2)'],
     'trusted_base': ['typed-arena 2.0'],
 }
 
 
+def r01_8(ctx):
+    """edges are only entered into rows they really cover: the culling / horizontal tests of add_edge dominate the insertion,
+    also after an edge starting above the surface was stepped down to row 0"""
+    import hazard
+    R = 'R01.8'
+    b = ctx.body(ras.RAS + 'add_edge', R)
+    hs = [h for h in hazard.hazards_of(ctx, b) if h[0] == 'index' and h[1] == 'self.edge_starts']
+    ok = bool(hs) and hazard.g_add_edge_row(ctx, b, hs)
+    ctx.check(ok, R, 'rasterizer::Rasterizer::add_edge|row guards', b.loc(), 'insertion row r satisfies 0 <= r < height and r < y2 on every path',
+              'an edge can be inserted into a start row it does not cover (the y1 >= height / cury >= y2 / cury < 0 tests no longer cut every path to the insertion, e.g. the re-test after stepping an off-surface edge down to row 0 was weakened): spurious coverage appears on that sample row')
+
+
 def run(ctx):
-    engine.run_rules(ctx, [ras.r01_1, ras.r01_2, ras.r01_3, ras.r01_4_close, ras.r01_5, ras.r01_6])
+    engine.run_rules(ctx, [r01_8, ras.r01_1, ras.r01_2, ras.r01_3, ras.r01_4_close, ras.r01_5, ras.r01_6, ras.r08_5])
